@@ -143,7 +143,15 @@ impl SubscriptionActor {
                 loop {
                     tokio::select! {
                         Some(request) = receiver.recv() => {
-                            actor.receive(request).await
+                            actor.receive(request).await;
+                            // A consumer that was woken for the queued messages may have gone
+                            // away before pulling them (e.g. abandoned while waiting for room in
+                            // this mailbox); its wake-up would be lost and other consumers would
+                            // keep waiting. While messages are queued, pass the wake-up on after
+                            // every request; a spurious wake-up only costs an empty pull.
+                            if !actor.deleted && !actor.backlog.is_empty() {
+                                actor.observer.notify_new_messages_available();
+                            }
                         },
                         Some(expired) = actor.outstanding.poll_next_expired() => {
                             actor.handle_expired_messages(expired);
